@@ -413,6 +413,35 @@ def constructor_sites(program, rep, found):
     return n
 
 
+def literal_subtag_text(n, width):
+    """little-endian bytes of an integer literal up to the first NUL (the packing `from_raw_unchecked` undoes); None if it is not such a string"""
+    try:
+        raw = int(n).to_bytes(width, 'little')
+    except (OverflowError, ValueError):
+        return None
+    txt = raw.rstrip(b'\0')
+    if b'\0' in txt or not txt:
+        return None
+    return txt
+
+
+def canonical_subtag(role, b):
+    import string
+    al = set(string.ascii_lowercase.encode())
+    AL = set(string.ascii_uppercase.encode())
+    dg = set(string.digits.encode())
+    n = len(b)
+    if role == 'Language':
+        return n in (2, 3, 5, 6, 7, 8) and all(c in al for c in b) and b != b'und'
+    if role == 'Script':
+        return n == 4 and b[0] in AL and all(c in al for c in b[1:])
+    if role == 'Region':
+        return (n == 2 and all(c in AL for c in b)) or (n == 3 and all(c in dg for c in b))
+    if role == 'Variant':
+        return (5 <= n <= 8 and all(c in al or c in dg for c in b)) or (n == 4 and b[0] in dg and all(c in al or c in dg for c in b[1:]))
+    return False
+
+
 def unsafe_ctor_callers(program, rep):
     """PROV-UNSAFE (who-may-call): the unchecked constructors (`from_raw_unchecked`, `TinyAsciiStr::from_bytes_unchecked` and the unsafe repository
     functions that reach them) are called from safe code only with table data (elements of the bundled statics, whose well-formedness is the TAB-DECODE
@@ -443,7 +472,7 @@ def unsafe_ctor_callers(program, rep):
             continue
         if b['kind'] == 'Closure':
             continue
-        is_root = bool(b.get('reach')) or bool(b.get('impl') and b['impl']['trait']) or program.has_loops(fn) or not callers_of(facts, fn)
+        is_root = bool(b.get('reach')) or bool(b.get('impl') and b['impl']['trait']) or program.has_loops(fn) or not callers_of(facts, fn) or b['kind'] in ('Const', 'AssocConst')
         if not is_root:
             continue
         e = pxm.PX(program, opaque=U)
@@ -463,13 +492,28 @@ def unsafe_ctor_callers(program, rep):
                     pty = csig[ai] if csig and ai < len(csig) else 'u64'
                     if not re.search(r'\b(u8|u16|u32|u64|u128|usize)\b|TinyAsciiStr', pty):
                         continue          # a parameter of a validated type (Language, Option<Script> ...): whatever is passed was validated when it was built
-                    leaves = terms.find_terms(a, lambda t: t[0] in ('param', 'init', 'lv', 'call', 'byte', 'tiny', 'len', 'slice'))
+                    # a literal handed to a subtag's unchecked constructor must itself be canonical text of that subtag's production (and never the
+                    # text "und": the empty language has no integer form) - `const ROOT: Language = unsafe { from_raw_unchecked(0x646e75) }`
+                    mrole = re.search(r'(?:^|::)(Language|Script|Region|Variant)::from_raw_unchecked$', ev[1])
+                    if mrole and isinstance(a, tuple) and a and a[0] == 'int':
+                        width = 8 if mrole.group(1) in ('Language', 'Variant') else 4
+                        txt = literal_subtag_text(a[1], width)
+                        if txt is None or not canonical_subtag(mrole.group(1), txt):
+                            bad.append('%s::from_raw_unchecked receives the literal %d (%r): not the canonical text of a %s' % (mrole.group(1), a[1], txt, mrole.group(1)))
+                        continue
+                    LEAF = ('param', 'init', 'lv', 'call', 'byte', 'tiny', 'len', 'slice')
+                    leaves = terms.find_terms(a, lambda t: t[0] in LEAF)
+                    # leaves that occur inside the index of a table-row term (computed once per argument)
+                    inside = set()
+                    if leaves:
+                        for u in terms.find_terms(a, lambda u: u[0] == 'elem' and u[1][0] == 'unk' and u[1][1][0] == 'ST'):
+                            for w in terms.find_terms(u[2], lambda w: w[0] in LEAF):
+                                inside.add(w)
                     for t in leaves:
                         # allowed: nothing that depends on the caller's input.  Table rows are ('elem', ('unk', ('ST', static)), index) terms: their index may be a search result
                         if t[0] == 'call' and re.search(r'::binary_search(_by|_by_key)?$', t[1]):
                             continue
-                        inside_index = bool(terms.find_terms(a, lambda u: u[0] == 'elem' and u[1][0] == 'unk' and u[1][1][0] == 'ST' and terms.find_terms(u[2], lambda w: w == t)))
-                        if inside_index:
+                        if t in inside:
                             continue
                         bad.append('%s receives %s, which is not table data' % (ev[1].split('::')[-2] + '::' + ev[1].split('::')[-1], e.short(a, 120)))
                         break
